@@ -221,7 +221,7 @@ func (c *c06Oracle) Check(w *World, o *Obs) []Violation {
 	}
 	// cookies issued before a change
 	if ck := o.presented("cookie"); ck != nil && o.IsHTTP && ck.Known != nil && ck.Status == "revoked" && o.uidBefore() == "" && ck.Known.Acct >= 0 && ck.Known.Acct < len(w.Accts) &&
-		w.Cfg.hasModule("remember") && !w.Cfg.hasSetup("expire") {
+		w.rememberActive() {
 		pidc := w.Accts[ck.Known.Acct].PID
 		if uid, ok := hasPut(o.SessEvents, "uid"); ok && uid == pidc && st.Kind == "probe" {
 			out = append(out, viol("C06", "revoked_cookie_authenticated", "middleware", o, fmt.Sprintf("a remember cookie issued to %s before its password change still logs it in", pidc)))
